@@ -1,11 +1,27 @@
-(** Wire entry points of property C01 (sub 99: decode a tree and dump it again,
-    used to validate the tree wire format against harness/treedump.py). *)
+(** Wire entry points shared by the parser properties (C01 C02 C05 C06 C09 C10):
+    sub 0: default context;  sub 1: custom context on the wire;
+    sub 99: decode a tree and dump it again (validates the tree wire format). *)
 From Coq Require Import ZArith List.
-From PLV Require Import Base.Wire Parse.Nodes.
+From PLV Require Import Base.Wire Tok.TokWire Parse.Nodes Parse.Parser Parse.ParseWire.
+From PLV Require Gen.GenWalkerCtx.
+Import ListNotations.
+
+Definition parse_entry (cx : context) (inp : list Z) : list Z :=
+  match bind rd_str (fun s => bind rd_bool (fun tol => ret (s, tol))) inp with
+  | Some ((s, tol), _) => to_wire (show_res (parse_top s tol cx (walker_state cx)))
+  | None => bad_input
+  end.
+
 Definition entry (sub : Z) (inp : list Z) : list Z :=
   if Z.eqb sub 99 then
     match rd_tree inp with
     | Some (o, _) => to_wire (show_onode o)
+    | None => bad_input
+    end
+  else if Z.eqb sub 0 then parse_entry Gen.GenWalkerCtx.default_ctx inp
+  else if Z.eqb sub 1 then
+    match rd_context inp with
+    | Some (cx, r) => parse_entry cx r
     | None => bad_input
     end
   else bad_input.
